@@ -420,6 +420,26 @@ _more("C18", "JSON round trips through from_str / from_value / from_reader. The 
       random_outputs_pooled_across_threads=1000)
 _more("C19", "Proofs hiding 45 (70) attributes; lookups of quotients among the secrets by binary search over a sorted index.")
 
+_more("C05", "More shapes at size boundaries: (1, 130), (63, 0), (64, 0), (30, 33).")
+_more("C06", "PRESENCE GRID: verify_blind_sign with committed in {None, Some([]), Some(cm), Some(fake)} x blind in {None, Some(0), "
+      "Some(blind), Some(random)} on the honest signature and on one issued without a commitment: only the spellings of the truth verify.",
+      presence_grid_truths_accepted=4)
+_more("C07", "CONCURRENT: KeyPair::random and BlindFactor::random on 16 threads at once (1200 / 8000 each per suite), pooled: no zero, "
+      "no repeat.", concurrent_random_values_pooled=30000)
+_more("C08", "Entry points also at exactly 63 / 64 / 128 positions and 40 + 1 + 23 = 64 (blind).")
+_more("C10", "The library's own generation of the honest artefacts runs inside monitored calls: a refusal where the reference produces "
+      "is a decision mismatch (library-refuses/reference-accepts/<op>); shapes with M > L: (0, 3), (1, 6).")
+_more("C11", "VOLUME: 12 x 250 (2500) fresh honest proofs through the other suite's verifier, the other suite's blind interface and the "
+      "own suite's blind interface.", volume_foreign_verifications=5000)
+_more("C12", "Out-of-range positions and wrong n also with identical / empty old and new values; every history starts with updates under "
+      "the OTHER suite on the same thread with the same recurring values.")
+_more("C13", "FORGERY SEARCH without the key: v in {1, N-1, 2} with 1500 (12000) consecutive values of s.")
+_more("C17", "EQUALITY PATTERNS: which pairs of large fields coincide, per candidate value; a pair coinciding in every proof of one "
+      "candidate and in none of another identifies it.")
+_more("C18", "random_bits also for 2049, 3073, 4095, 4096, 4097, 8192, 16385 bits.")
+_more("C19", "TWO CHALLENGES: (s - s') / (c - c') over all pairs of different large fields and pairs of recomputable challenges of one "
+      "proof must not be a secret (exact division; proofs with at most 260 large fields).")
+
 
 def post_C07(drv, res, binary, tier, seed):
     """Cross-process part of the history: the same fixed workload in N independent processes started
